@@ -138,7 +138,9 @@ def scalable(units_a, units_b):
                 return False
         return True
 
-    if not (is_si(units_a) and is_si(units_b)):
+    # only atomic units can be scaled into each other: of a compound unit
+    # such as "mV/s" split() sees the first factor only
+    if not (units_a and units_b and is_atomic(units_a) and is_atomic(units_b)):
         return False
 
     _, a_unit, a_power = split(units_a)
